@@ -181,3 +181,70 @@ theorem nested_missing (E : RegexEngine) (K : IdentK) (d : Doc) (f : Str) (s : S
   simp [solveG, h]
 
 end Tau.C10
+
+namespace Tau.C10
+open Tau
+
+/-! ### An index that names no element is missing — never another element
+
+`name[i]` reads its index with `usize::from_str`: text that is not a (64-bit) unsigned number — a
+sign other than `+`, a non-digit, no digits at all, a value of 2^64 or more — names no element, and
+the whole lookup is missing. No wrap-around onto another index (a seeded change of round 14 replaced
+the library parser by a digit loop that wraps at 2^64: `a[18446744073709551616]` then reads `a[0]`). -/
+
+/-- A segment `name[text]` whose index text does not parse decomposes into its name and NO index. -/
+theorem segIndex_bad_index (name text : Str)
+    (hname : ∀ c ∈ name, c ≠ '.' ∧ c ≠ '[' ∧ c ≠ ']') (htext : ∀ c ∈ text, c ≠ '.' ∧ c ≠ '[' ∧ c ≠ ']')
+    (hp : parseUsize text = none) :
+    segIndex (name ++ ['['] ++ text ++ [']']) = some (name, none) := by
+  unfold segIndex
+  have hlast : (name ++ ['['] ++ text ++ [']']).getLast? = some ']' := by
+    rw [List.getLast?_append]; rfl
+  have hcont : (name ++ ['['] ++ text ++ [']']).contains '[' = true := by simp
+  have hsplit : splitOn '[' (name ++ ['['] ++ text ++ [']']) = [name, text ++ [']']] := by
+    have h1 : name ++ ['['] ++ text ++ [']'] = name ++ '[' :: (text ++ [']']) := by simp
+    rw [h1, splitOn_append _ _ _ (fun x hx => (hname x hx).2.1)]
+    rw [splitOn_no_sep]
+    intro x hx
+    simp at hx
+    rcases hx with hx | hx
+    · exact (htext x hx).2.1
+    · subst hx; decide
+  simp only [hlast, hcont, hsplit]
+  simp [hp, List.getLast?_append]
+
+/-- **Such a step resolves to nothing**, whatever the object holds under `name` — in particular it
+    never falls back to element 0, to the array itself or to a key spelled like the segment. -/
+theorem bad_index_missing (kvs : List (Str × Value)) (name text : Str)
+    (hname : ∀ c ∈ name, c ≠ '.' ∧ c ≠ '[' ∧ c ≠ ']') (htext : ∀ c ∈ text, c ≠ '.' ∧ c ≠ '[' ∧ c ≠ ']')
+    (hp : parseUsize text = none) :
+    findStep kvs (name ++ ['['] ++ text ++ [']']) = none := by
+  unfold findStep
+  rw [segIndex_bad_index name text hname htext hp]
+
+/-- Index text of 2^64 or more, or with a sign / a non-digit, does not parse (kernel-evaluated
+    instances; `parseUsize` refuses every digit string whose value exceeds u64::MAX by definition). -/
+theorem parseUsize_overflow (ds : Str) (h1 : ds.isEmpty = false) (h2 : ds.all isAsciiDigit = true)
+    (h3 : u64Max < digitsVal ds) (h4 : ds.head? ≠ some '+') : parseUsize ds = none := by
+  have hn : ¬ digitsVal ds ≤ u64Max := by omega
+  cases ds with
+  | nil => simp at h1
+  | cons c r =>
+    have hc : c ≠ '+' := by intro hc; subst hc; simp at h4
+    unfold parseUsize
+    split
+    · rename_i heq; cases heq; exact absurd rfl hc
+    · rename_i r' hnot
+      simp only [List.isEmpty_cons, Bool.false_or, h2, Bool.not_true, Bool.false_eq_true, if_false, hn]
+
+example : parseUsize "18446744073709551616".toList = none ∧ parseUsize "-1".toList = none ∧
+    parseUsize "1.0".toList = none ∧ parseUsize "".toList = none ∧
+    parseUsize "18446744073709551615".toList = some 18446744073709551615 ∧
+    parseUsize "+1".toList = some 1 ∧ parseUsize "007".toList = some 7 := by decide
+
+example : objFind [(['a'], .arr [.str ['z'], .str ['o']])] "a[18446744073709551616]".toList = none ∧
+    objFind [(['a'], .arr [.str ['z'], .str ['o']])] "a[2]".toList = none ∧
+    objFind [(['a'], .arr [.str ['z'], .str ['o']])] "a[1]".toList = some (.str ['o']) := by
+  refine ⟨by rfl, by rfl, by rfl⟩
+
+end Tau.C10
